@@ -11,7 +11,7 @@ func init() {
 		ID:    "C16",
 		Title: "Entities survive write then read, also compressed, whatever came before",
 		Decided: "C16.a the JSON reader calls UseNumber on the very decoder whose Decode result it returns, before decoding (64-bit integers read into interface{} would otherwise pass through float64); C16.b a pooled gzip reader is Reset onto this request's body before first use and released only when the operation that reads through it is over, and the deflate branch builds a fresh reader per call; " +
-			"C16.c in ReadEntity the result of a decompressor constructor is not touched (not even by a deferred Close) before its error was checked and returned, the accessor's Read error is the method's result, and no explicit panic is reachable from the read path; C16.d the acquire/release discipline of the pooled reader (same obligation as C13.a). C16.e = C13.f; C16.f = C13.d (every reader handed out is fully constructed). C16.g a byte container that goes through a sync.Pool is emptied before every Put or after every Get.",
+			"C16.c in ReadEntity the result of a decompressor constructor is not touched (not even by a deferred Close) before its error was checked and returned, the accessor's Read error is the method's result, and no explicit panic is reachable from the read path; C16.d the acquire/release discipline of the pooled reader (same obligation as C13.a). C16.e = C13.f; C16.f = C13.d (every reader handed out is fully constructed). C16.g a byte container that goes through a sync.Pool is emptied before every Put or after every Get. C16.h under Content-Encoding E the request body is decoded on every path by the codec family the compressing writer installs for responses declared E.",
 		NotDecided:  "the round-trip equality itself (a law about encoding/json, encoding/xml and compress/* on runtime values); unicode handling of the codecs.",
 		Assumptions: []string{"gzip.Reader latches a Reset error and returns it from the next Read (library contract): the dropped error of gzipReader.Reset is not a violation"},
 		Rules: []Rule{
